@@ -197,10 +197,12 @@ Definition c14_aut : automaton :=
 
 Example C14_example_wf :
   (exists a, build_unchecked c14_builder = Some a /\ build c14_builder = Some (BOk a)) /\
-  aut_wfb c14_aut = true /\ num_states c14_aut = 4 /\
-  forallb (fun s => match a_default s with Some _ => negb (pempty_complement (a_classes s)) | None => true end)
-          (astates c14_aut) = true.
-Proof. split; [eexists; split; vm_compute; reflexivity|]. vm_compute. auto. Qed.
+  aut_wfb c14_aut = true /\ aut_wf c14_aut /\ num_states c14_aut = 4 /\ no_dead_default c14_aut.
+Proof.
+  split; [eexists; split; vm_compute; reflexivity|]. split; [vm_compute; reflexivity|].
+  split; [apply aut_wfb_iff; vm_compute; reflexivity|]. split; [vm_compute; reflexivity|].
+  apply no_dead_defaultb_iff. vm_compute. reflexivity.
+Qed.
 
 Example C14_example_prune :
   reachable c14_aut = [0; 2; 3] /\
